@@ -620,10 +620,18 @@ func c05StrideAfterBranches(c *Ctx) {
 // c05CandidateOrder: C05-R7.
 func c05CandidateOrder(c *Ctx) {
 	m := c.newMatchModel()
+	type site struct {
+		f     *ssa.Function
+		cl    *ssa.Call
+		inMap string
+	}
+	// sites are identified by the function that is to blame (an unexported helper with one caller counts as
+	// that caller) and, among the offending ones, by their order: own code first, then helpers by name
+	by := map[*ssa.Function][]site{}
+	var order []*ssa.Function
 	n := 0
 	for _, f := range m.fns {
 		loops := flow.Loops(f)
-		idx := 0
 		ssau.Instrs(f, func(in ssa.Instruction) {
 			cl, ok := in.(*ssa.Call)
 			if !ok {
@@ -647,10 +655,40 @@ func c05CandidateOrder(c *Ctx) {
 				}
 			}
 			n++
-			idx++
-			key := fmt.Sprintf("%s: result list extended #%d", fname(f), idx)
-			c.R.Check(inMap == "", "C05-R7", key, c.pos(cl), "not inside a range over a map", "a list of binding sets is extended inside a range over a Go map ("+inMap+"): the order of the candidates follows map iteration, and with a guard that accepts more than one of them the branch taken differs from run to run")
+			top := f
+			for top.Parent() != nil {
+				top = top.Parent()
+			}
+			bf := blameCaller(top, m.fns)
+			if _, have := by[bf]; !have {
+				order = append(order, bf)
+			}
+			by[bf] = append(by[bf], site{f, cl, inMap})
 		})
+	}
+	sort.SliceStable(order, func(i, j int) bool { return fname(order[i]) < fname(order[j]) })
+	for _, bf := range order {
+		ss := by[bf]
+		sort.SliceStable(ss, func(i, j int) bool {
+			oi, oj := ss[i].f == bf, ss[j].f == bf
+			if oi != oj {
+				return oi
+			}
+			if ss[i].f != ss[j].f {
+				return fname(ss[i].f) < fname(ss[j].f)
+			}
+			return false
+		})
+		bad, good := 0, 0
+		for _, s := range ss {
+			if s.inMap == "" {
+				good++
+				c.R.Discharge("C05-R7", fmt.Sprintf("%s: result list extended in a fixed order #%d", fname(bf), good), c.pos(s.cl), "not inside a range over a map")
+				continue
+			}
+			bad++
+			c.R.Violate("C05-R7", fmt.Sprintf("%s: result list extended #%d", fname(bf), bad), c.pos(s.cl), "a list of binding sets is extended inside a range over a Go map ("+s.inMap+"): the order of the candidates follows map iteration, and with a guard that accepts more than one of them the branch taken differs from run to run")
+		}
 	}
 	if n == 0 {
 		c.R.Break("C05-R7: the matcher never extends a list of binding sets")
